@@ -26,7 +26,9 @@ MANIFEST = {
             "mass_replace, split, replace, strip, Transition.Parse, Guard.Parse) and end to end (real SQLite files through "
             "vppfs.ExtractTransitionTable vs model vs specification vs an independent Python oracle, malformed projects included: "
             "exceptions must agree too).",
-    "note": "Trusted: Coq kernel, extraction (ExtrOcamlBasic/NativeString), translator/vpp.py, sqlite3 (SELECT * in rowid order, PRIMARY KEY), "
+    "note": "The K-C19-6 repair (vppfs.ParseBLOB_Recursive / Get_ValuesFromOutside made quote-aware, kojen 78dbf9a) is not on this property's path: "
+            "Transition.Parse / Guard.Parse split their blobs themselves (Model/Vpp.v is unchanged, the C20 theorems are re-checked unchanged). "
+            "Trusted: Coq kernel, extraction (ExtrOcamlBasic/NativeString), translator/vpp.py, sqlite3 (SELECT * in rowid order, PRIMARY KEY), "
             "CPython str methods (tied by execution only). The Visual Paradigm writer is an ASSUMPTION (Model/VppWriter.v), calibrated on the "
             "one shipped project: field syntax CR LF TAB key=<id:..:id>; first field never a reference field. Known finding K-C20-1/2: names, "
             "authors or ids containing toModel/fromModel/guard/effect/value_string, and guard texts with = < > ( ) ; quotes, are misread.",
